@@ -121,7 +121,7 @@ def cases(chk):
     yield "isspace", {"lo": 0, "hi": 0x3100}
     yield "isspace", {"lo": 0xFE00, "hi": 0xFF10}
     for fmt in ("json", "keyval"):
-        for how in ("path-ext", "path-noext", "profile", "fresh-profile", "dest"):
+        for how in ("path-ext", "path-noext", "profile", "fresh-profile", "dest", "profile-resave"):
             yield "config", {"fmt": fmt, "how": how, "cfg": {"phone": "491234", "cc": 49, "client_static_keypair": "11" * 64, "pushname": "yo"}}
     yield "config", {"fmt": "keyval", "how": "profile-libsave", "cfg": {"phone": "491234", "cc": 49, "pushname": "yo"}}
     yield "config", {"fmt": "json", "how": "profile-libsave", "cfg": {"phone": "491234", "cc": 49, "pushname": "yo"}}
@@ -130,6 +130,10 @@ def cases(chk):
     for how in ("profile-libsave", "dest", "profile"):
         for pn in (u"caf\xe9", u"\u0416\u4e2d", u"smile \U0001f600", u"half \ud83d!", u"\udc00", u"a\u2028b"):
             yield "config", {"fmt": "json", "how": how, "cfg": {"phone": "491234", "cc": 49, "client_static_keypair": "22" * 64, "pushname": pn}, "foreign": 1}
+    for k in range(0, 8):
+        for oldfmt in ("json", "keyval"):
+            yield "crash", {"kill": k, "torn": 0, "fresh": 0, "via": "profile", "oldfmt": oldfmt}
+            yield "crash", {"kill": k, "torn": 1, "fresh": 0, "via": "profile", "oldfmt": oldfmt}
     for k in range(0, 8):
         yield "crash", {"kill": k, "torn": 0, "fresh": 0}
         yield "crash", {"kill": k, "torn": 1, "fresh": 0}
@@ -153,7 +157,7 @@ def cases(chk):
         yield "keyval-raw", {"text": "\n".join(lines)}
     for _ in range(chk.scale(200, 6000)):
         fmt = r.choice(["json", "keyval"])
-        yield "config", {"fmt": fmt, "how": r.choice(["path-ext", "path-noext", "profile", "fresh-profile", "dest"]), "cfg": gen_config(r, fmt)}
+        yield "config", {"fmt": fmt, "how": r.choice(["path-ext", "path-noext", "profile", "fresh-profile", "dest", "profile-resave"]), "cfg": gen_config(r, fmt)}
 
 
 def nontrivial(stream, case):
@@ -243,6 +247,15 @@ def run_config(chk, case):
             else:
                 cm.save(name, cfg, stype)
             loaded = cm.load(name)
+        elif how == "profile-resave":
+            # an existing profile in this format, then the library's own save of a changed configuration (YowProfile.write_config)
+            from yowsup.profile.profile import YowProfile
+            os.makedirs(pdir, exist_ok=True)
+            oldcfg = build_config({"phone": "491111", "cc": 49, "client_static_keypair": "aa" * 64, "pushname": "old"})
+            with open(os.path.join(pdir, "config" + ext), "w") as f:
+                f.write(cm.config_to_str(oldcfg, stype))
+            YowProfile(name).write_config(cfg)
+            loaded = YowProfile(name).config
         elif how == "dest":
             os.makedirs(pdir, exist_ok=True)
             path = os.path.join(pdir, "saved" + ext)
@@ -290,19 +303,24 @@ def run_crash(chk, case):
     cm = chk.cm
     name = "c-" + uuid.uuid4().hex
     pdir = os.path.join(chk.base, name)
-    final = os.path.join(pdir, "config.json")
+    keyval = case.get("oldfmt") == "keyval"
+    final = os.path.join(pdir, "config.yo" if keyval else "config.json")
     old = build_config({"phone": "491111", "cc": 49, "client_static_keypair": "aa" * 64, "pushname": "old"})
     new = build_config({"phone": "491111", "cc": 49, "client_static_keypair": "bb" * 64, "pushname": "new", "server_static_public": "cc" * 32})
     if not case["fresh"]:
         os.makedirs(pdir, exist_ok=True)
         with open(final, "w") as f:
-            f.write(cm.config_to_str(old))
+            f.write(cm.config_to_str(old, cm.TYPE_KEYVAL if keyval else cm.TYPE_JSON))
     pid = os.fork()
     if pid == 0:
         code = 0
         try:
             with Tracer(final, kill_at=case["kill"], torn=bool(case["torn"])):
-                cm.save(name, new)
+                if case.get("via") == "profile":
+                    from yowsup.profile.profile import YowProfile
+                    YowProfile(name).write_config(new)
+                else:
+                    cm.save(name, new)
         except BaseException:
             code = 9
         finally:
@@ -318,7 +336,8 @@ def run_crash(chk, case):
             content = f.read()
     except OSError:
         content = None
-    cls = ("absent" if content is None else "old" if content == cm.config_to_str(old) else "new" if content == cm.config_to_str(new)
+    ty = cm.TYPE_KEYVAL if keyval else cm.TYPE_JSON
+    cls = ("absent" if content is None else "old" if content == cm.config_to_str(old, ty) else "new" if content == cm.config_to_str(new, ty)
            else "empty" if content == "" else "other")
     if out == "raises":
         mcls = None
@@ -334,14 +353,14 @@ def run_crash(chk, case):
         loaded = cm.load(name)
     except Exception as e:
         loaded = e
-    want_old, want_new = canon(old, False), canon(new, False)
+    want_old, want_new = canon(old, keyval), canon(new, keyval)
     ok = False
     if isinstance(loaded, Exception) or loaded is None:
         # acceptable only if there was no previous configuration and the save did not complete
         ok = bool(case["fresh"]) and killed and cls == "absent"
         got = repr(loaded)
     else:
-        got = canon(loaded, False)
+        got = canon(loaded, keyval)
         ok = got == want_new or (got == want_old and not case["fresh"])
         if not killed and code == 0:
             ok = got == want_new
@@ -349,8 +368,9 @@ def run_crash(chk, case):
         fails.append(oracle("C19:save-raises" + (":fresh-profile" if case["fresh"] else ""),
                             "saving the configuration of a %s profile raises" % ("never-used" if case["fresh"] else "used")))
     elif not ok:
-        fails.append(oracle("C19:crash-not-atomic", "save killed before file operation #%d%s (%s profile): the profile now loads as %s (file: %s)"
-                            % (case["kill"], " with a torn write" if case["torn"] else "", "fresh" if case["fresh"] else "existing", str(got)[:200], cls)))
+        fails.append(oracle("C19:crash-not-atomic", "save%s killed before file operation #%d%s (%s%s profile): the profile now loads as %s (file: %s)"
+                            % (" through YowProfile.write_config" if case.get("via") == "profile" else "", case["kill"], " with a torn write" if case["torn"] else "",
+                               "fresh" if case["fresh"] else "existing", " key=value" if keyval else "", str(got)[:200], cls)))
     return fails
 
 
